@@ -4,6 +4,7 @@ import (
 	"context"
 	"fmt"
 	"math/rand"
+	"os"
 	"sort"
 	"strings"
 	"sync/atomic"
@@ -60,8 +61,9 @@ type cacheEnv struct {
 	dones   []chan struct{}
 	snap    map[string]map[string]string // target -> key -> deterministic encoding of the stored notification
 	leaves  map[string]map[string]*pb.Notification
-	memo    map[*pb.Notification]string // encoding of a stored notification, taken when it is first seen
-	dead    bool                        // a panic was recovered: locks may still be held, the cache must not be touched again
+	memo    map[*pb.Notification]string  // encoding of a stored notification, taken when it is first seen
+	content map[string]map[string]string // as snap, without the object identity (comparable across caches)
+	dead    bool                         // a panic was recovered: locks may still be held, the cache must not be touched again
 }
 
 var detMarshal = proto.MarshalOptions{Deterministic: true}
@@ -69,6 +71,7 @@ var detMarshal = proto.MarshalOptions{Deterministic: true}
 // snapshot reads the whole content of every target through Cache.Query.
 func (e *cacheEnv) snapshot() (pi *panicInfo) {
 	snap := map[string]map[string]string{}
+	content := map[string]map[string]string{}
 	leaves := map[string]map[string]*pb.Notification{}
 	if e.memo == nil {
 		e.memo = map[*pb.Notification]string{}
@@ -76,6 +79,7 @@ func (e *cacheEnv) snapshot() (pi *panicInfo) {
 	pi = guard(func() {
 		for _, t := range e.targets {
 			m := map[string]string{}
+			cm := map[string]string{}
 			l := map[string]*pb.Notification{}
 			e.c.Query(t, []string{"*"}, func(p []string, _ *ctree.Leaf, v interface{}) error {
 				k := model.Key(p)
@@ -87,6 +91,7 @@ func (e *cacheEnv) snapshot() (pi *panicInfo) {
 						e.memo[n] = enc
 					}
 					m[k] = enc
+					cm[k] = enc[strings.IndexByte(enc, ':')+1:]
 					l[k] = n
 				} else {
 					m[k] = fmt.Sprintf("non-notification %T", v)
@@ -94,10 +99,11 @@ func (e *cacheEnv) snapshot() (pi *panicInfo) {
 				return nil
 			})
 			snap[t] = m
+			content[t] = cm
 			leaves[t] = l
 		}
 	})
-	e.snap, e.leaves = snap, leaves
+	e.snap, e.leaves, e.content = snap, leaves, content
 	return pi
 }
 
@@ -271,45 +277,6 @@ func buildState(kind string, rng *rand.Rand, ts int64) *cacheEnv {
 	return e
 }
 
-// addressing is the set of leaf keys (of the message's target) that the
-// updates and deletes of a notification address (specification-level index
-// from the model package).
-type addressing struct {
-	updates map[string]bool
-	deletes [][]string
-}
-
-func addressingOf(n *pb.Notification) *addressing {
-	a := &addressing{updates: map[string]bool{}}
-	pre := n.GetPrefix()
-	if n.GetAtomic() {
-		a.updates[model.Key(model.CacheIndex(pre, nil))] = true
-	} else {
-		for _, u := range n.GetUpdate() {
-			a.updates[model.Key(model.CacheIndex(pre, u.GetPath()))] = true
-		}
-	}
-	for _, d := range n.GetDelete() {
-		a.deletes = append(a.deletes, model.CacheIndex(pre, d))
-	}
-	return a
-}
-
-func (a *addressing) has(key string) bool {
-	if a.updates[key] {
-		return true
-	}
-	if len(a.deletes) > 0 {
-		k := model.Unkey(key)
-		for _, q := range a.deletes {
-			if model.MatchQ(q, k) {
-				return true
-			}
-		}
-	}
-	return false
-}
-
 func shapeOf(n *pb.Notification) string {
 	switch {
 	case n.GetAtomic():
@@ -324,8 +291,35 @@ func shapeOf(n *pb.Notification) string {
 	return "empty"
 }
 
+// partVerdicts says, for a multi-part notification, which of its update parts
+// the cache accepts when each part is sent on its own ("each individual
+// Update/Delete is sent to cache as a separate gnmi.Notification"), in order,
+// starting from the state the cache was in before the message. nil: unknown.
+type partVerdicts func() []bool
+
+// holdsPart reports whether the stored notification s is exactly what the
+// update part u of notification n carries: same prefix, path and value, the
+// notification's timestamp, nothing else.
+func holdsPart(s, n *pb.Notification, u *pb.Update) bool {
+	return s != nil && s.GetTimestamp() == n.GetTimestamp() && !s.GetAtomic() && len(s.GetUpdate()) == 1 && len(s.GetDelete()) == 0 &&
+		proto.Equal(s.GetUpdate()[0], u) && proto.Equal(s.GetPrefix(), n.GetPrefix())
+}
+
+func describeStored(s *pb.Notification) string {
+	if s == nil {
+		return "<not a notification>"
+	}
+	return truncate(ptext(s), 300)
+}
+
 // checkRejected is oracle (2): a rejected message leaves stored data intact.
-func checkRejected(r *vlib.Run, n *pb.Notification, err error, before, after map[string]map[string]string) (sig, what string) {
+// Single-update, single-delete and atomic notifications, and multi-part ones
+// of which every part was rejected: the content is identical before and after.
+// Other multi-part notifications: every leaf is either identical to what it
+// was, or holds exactly what an ACCEPTED update part addressed to that leaf's
+// own index path carries, or was removed by a delete part that covers it --
+// never content of a rejected part or of another path.
+func checkRejected(r *vlib.Run, n *pb.Notification, err error, before, after map[string]map[string]string, afterLeaves map[string]map[string]*pb.Notification, verdicts partVerdicts) (sig, what string) {
 	shape := shapeOf(n)
 	whole := shape != "multi"
 	if !whole {
@@ -336,9 +330,20 @@ func checkRejected(r *vlib.Run, n *pb.Notification, err error, before, after map
 		}
 	}
 	target := n.GetPrefix().GetTarget()
-	var addr *addressing
+	pre := n.GetPrefix()
+	var (
+		accepted []bool
+		asked    bool
+		upKeys   []string
+		delQ     [][]string
+	)
 	if !whole {
-		addr = addressingOf(n)
+		for _, u := range n.GetUpdate() {
+			upKeys = append(upKeys, model.Key(model.CacheIndex(pre, u.GetPath())))
+		}
+		for _, d := range n.GetDelete() {
+			delQ = append(delQ, model.CacheIndex(pre, d))
+		}
 	}
 	compared := 0
 	for t, bm := range before {
@@ -351,27 +356,159 @@ func checkRejected(r *vlib.Run, n *pb.Notification, err error, before, after map
 			keys[k] = struct{}{}
 		}
 		for k := range keys {
-			if !whole && t == target && addr.has(k) {
-				continue
-			}
 			compared++
 			bv, bok := bm[k]
 			av, aok := am[k]
-			if bok != aok || bv != av {
-				state := "changed"
-				if !aok {
-					state = "removed"
-				} else if !bok {
-					state = "created"
-				}
-				return "rejected-message-changed-cache:" + shape,
-					fmt.Sprintf("GnmiUpdate returned %q for a %s notification, yet leaf %s/%s was %s (not addressed by an accepted part)", err, shape, t, strings.Join(model.Unkey(k), "/"), state)
+			if bok == aok && bv == av {
+				continue
 			}
+			leafName := t + "/" + strings.Join(model.Unkey(k), "/")
+			state := "changed"
+			if !aok {
+				state = "removed"
+			} else if !bok {
+				state = "created"
+			}
+			if whole || t != target {
+				return "rejected-message-changed-cache:" + shape,
+					fmt.Sprintf("GnmiUpdate returned %q for a %s notification, yet leaf %s was %s", err, shape, leafName, state)
+			}
+			if !aok {
+				covered := false
+				for _, q := range delQ {
+					if model.MatchQ(q, model.Unkey(k)) {
+						covered = true
+					}
+				}
+				if !covered {
+					return "rejected-message-changed-cache:multi",
+						fmt.Sprintf("GnmiUpdate returned %q for a multi-part notification, yet leaf %s was removed although no delete of the notification covers it", err, leafName)
+				}
+				r.Count("oracle2_multi_removed_leaves_justified", 1)
+				continue
+			}
+			// The leaf holds something new: it must be what an accepted part
+			// addressed to this very leaf carries.
+			if !asked {
+				asked = true
+				accepted = verdicts()
+				if accepted == nil {
+					r.Count("oracle2_multi_part_verdicts_unavailable", 1)
+				} else {
+					r.Count("oracle2_multi_part_verdicts_by_replay", 1)
+				}
+			}
+			stored := afterLeaves[t][k]
+			justified, addressedHere, rejectedHere := false, false, false
+			for i, u := range n.GetUpdate() {
+				if upKeys[i] != k {
+					continue
+				}
+				addressedHere = true
+				if accepted != nil && !accepted[i] {
+					rejectedHere = true
+					continue
+				}
+				if holdsPart(stored, n, u) {
+					justified = true
+				}
+			}
+			if !justified {
+				why := "no update of the notification is addressed to that leaf"
+				switch {
+				case addressedHere && rejectedHere:
+					why = "the parts addressed to that leaf are rejected when sent on their own, or carry something else"
+				case addressedHere:
+					why = "it is not what the part addressed to that leaf carries (same prefix, path and value, the notification's timestamp)"
+				}
+				return "rejected-message-changed-cache:multi",
+					fmt.Sprintf("GnmiUpdate returned %q for a multi-part notification, yet leaf %s now holds %s: %s", err, leafName, describeStored(stored), why)
+			}
+			r.Count("oracle2_multi_changed_leaves_justified", 1)
 		}
 	}
 	r.Count("oracle2_rejected_"+shape+"_checked", 1)
 	r.Count("oracle2_leaves_compared", int64(compared))
 	return "", ""
+}
+
+// verdictsByReplay decides accepted / rejected per update part by sending the
+// parts one at a time, as single-part notifications, to a cache that is in
+// the state the real one was in before the message (trusted only if its
+// content equals the content the real cache had). afterContent() is the real
+// content after the message: if the twin ends up with the same content it
+// stays in use, otherwise it is dropped and re-created when next needed.
+func (ct *cacheTrial) verdictsByReplay(n *pb.Notification, beforeContent map[string]map[string]string, afterContent func() map[string]map[string]string) partVerdicts {
+	return func() []bool {
+		env := ct.twinBefore(beforeContent)
+		if env == nil {
+			return nil
+		}
+		part := func() *pb.Notification {
+			// The same notification restricted to one part (unknown fields and
+			// all: they take part in the cache's equal-timestamp comparison).
+			sp := proto.Clone(n).(*pb.Notification)
+			sp.Update, sp.Delete = nil, nil
+			return sp
+		}
+		out := make([]bool, len(n.GetUpdate()))
+		for i, u := range n.GetUpdate() {
+			sp := part()
+			sp.Update = []*pb.Update{proto.Clone(u).(*pb.Update)}
+			var err error
+			if guard(func() { err = env.c.GnmiUpdate(sp) }) != nil {
+				ct.dropTwin()
+				return nil
+			}
+			out[i] = err == nil
+		}
+		for _, d := range n.GetDelete() {
+			sp := part()
+			sp.Delete = []*pb.Path{proto.Clone(d).(*pb.Path)}
+			if guard(func() { env.c.GnmiUpdate(sp) }) != nil {
+				ct.dropTwin()
+				return out
+			}
+		}
+		switch {
+		case ct.env.kind == "latency":
+			// A future threshold is configured: acceptance then also depends on
+			// the target's latest timestamp, hidden state that the part-by-part
+			// replay advances differently from the real call. The twin is not
+			// kept; the next verdict starts from an exact re-creation.
+			ct.dropTwin()
+		case env.snapshot() == nil && sameContent(env.content, afterContent()):
+			ct.twinPos = len(ct.applied)
+		default:
+			ct.r.Count("oracle2_twin_diverged_after_parts", 1)
+			ct.dropTwin()
+		}
+		return out
+	}
+}
+
+// staleCounterKey is the one leaf whose value is not a function of the history:
+// the metadata refresh walks a Go map of entries, and a refresh update that is
+// itself rejected as stale (a peer stored a newer leaf under meta/) bumps the
+// stale counter before or after that counter's own leaf is written.
+var staleCounterKey = model.Key([]string{"meta", "targetLeavesStale"})
+
+func sameContent(a, b map[string]map[string]string) bool {
+	if len(a) != len(b) {
+		return false
+	}
+	for t, am := range a {
+		bm, ok := b[t]
+		if !ok || len(am) != len(bm) {
+			return false
+		}
+		for k, v := range am {
+			if bv, ok := bm[k]; !ok || (bv != v && k != staleCounterKey) {
+				return false
+			}
+		}
+	}
+	return true
 }
 
 type histEntry struct {
@@ -396,11 +533,17 @@ type cacheTrial struct {
 	stateSeed  int64
 	startClock int64
 	applied    []appliedOp
+	// twin is a second cache that trails the real one: it is brought to the
+	// state before the current message only when the oracle needs per-part
+	// verdicts, by replaying what was applied since it was last used.
+	twin    *cacheEnv
+	twinPos int // twin has consumed applied[:twinPos]
 }
 
 type appliedOp struct {
-	op string           // maintenance call, or "" for a message
-	n  *pb.Notification // the message as handed to GnmiUpdate (copy taken before the call)
+	op    string           // maintenance call, or "" for a message
+	n     *pb.Notification // the message as handed to GnmiUpdate (copy taken before the call)
+	clock int64            // the virtual clock when it was applied
 }
 
 func (ct *cacheTrial) violation(entry, class string, pi *panicInfo, op string, msg proto.Message) {
@@ -424,17 +567,13 @@ func (e *cacheEnv) stateFor(n *pb.Notification) *cacheState {
 	return st
 }
 
-// rebuild re-creates the trial's cache as it was just before the last applied
-// message: same state seed, same clock, same sequence of calls.
-func (ct *cacheTrial) rebuild() *cacheEnv {
-	var env *cacheEnv
-	atomic.StoreInt64(&vclock, ct.startClock)
-	if guard(func() {
-		env = buildState(ct.env.kind, rand.New(rand.NewSource(ct.stateSeed)), ct.startClock-2*int64(time.Second))
-	}) != nil {
-		return nil
-	}
-	for _, a := range ct.applied[:len(ct.applied)-1] {
+// replayOps applies recorded calls to env, each at the virtual time it was
+// originally applied at; the clock is restored afterwards.
+func replayOps(env *cacheEnv, ops []appliedOp) bool {
+	cur := atomic.LoadInt64(&vclock)
+	defer atomic.StoreInt64(&vclock, cur)
+	for _, a := range ops {
+		atomic.StoreInt64(&vclock, a.clock)
 		var pi *panicInfo
 		if a.n != nil {
 			c := proto.Clone(a.n).(*pb.Notification)
@@ -443,11 +582,94 @@ func (ct *cacheTrial) rebuild() *cacheEnv {
 			pi = runMaintenance(env, a.op)
 		}
 		if pi != nil {
-			env.close()
-			return nil
+			return false
 		}
 	}
+	return true
+}
+
+// rebuild re-creates the trial's cache as it was just before the last applied
+// message: same state seed, same clock, same sequence of calls.
+func (ct *cacheTrial) rebuild() *cacheEnv {
+	var env *cacheEnv
+	cur := atomic.LoadInt64(&vclock)
+	atomic.StoreInt64(&vclock, ct.startClock)
+	pi := guard(func() {
+		env = buildState(ct.env.kind, rand.New(rand.NewSource(ct.stateSeed)), ct.startClock-2*int64(time.Second))
+	})
+	atomic.StoreInt64(&vclock, cur)
+	if pi != nil {
+		return nil
+	}
+	if !replayOps(env, ct.applied[:len(ct.applied)-1]) {
+		env.close()
+		return nil
+	}
 	return env
+}
+
+// twinBefore returns a cache whose content equals beforeContent, the content
+// the real cache had before the last applied message: the trailing twin
+// brought up to date, or failing that a re-creation from scratch. nil if
+// neither reproduces that content.
+func (ct *cacheTrial) twinBefore(beforeContent map[string]map[string]string) *cacheEnv {
+	p := len(ct.applied) - 1
+	if ct.twin != nil {
+		if replayOps(ct.twin, ct.applied[ct.twinPos:p]) && ct.twin.snapshot() == nil && sameContent(ct.twin.content, beforeContent) {
+			ct.twinPos = p
+			return ct.twin
+		}
+		ct.dropTwin()
+		ct.r.Count("oracle2_twin_resynchronised_from_scratch", 1)
+	}
+	env := ct.rebuild()
+	if env == nil {
+		return nil
+	}
+	if env.snapshot() != nil || !sameContent(env.content, beforeContent) {
+		ct.debugStateDiff(env, beforeContent)
+		env.close()
+		ct.r.Count("oracle2_recreated_state_differs", 1)
+		return nil
+	}
+	ct.twin, ct.twinPos = env, p
+	return env
+}
+
+func (ct *cacheTrial) dropTwin() {
+	if ct.twin != nil {
+		ct.twin.close()
+		ct.twin = nil
+	}
+}
+
+func (ct *cacheTrial) debugStateDiff(env *cacheEnv, beforeContent map[string]map[string]string) {
+	dbg := os.Getenv("C12_DEBUG_LOG") // development aid
+	if dbg == "" {
+		return
+	}
+	f, err := os.OpenFile(dbg, os.O_APPEND|os.O_CREATE|os.O_WRONLY, 0o644)
+	if err != nil {
+		return
+	}
+	defer f.Close()
+	fmt.Fprintf(f, "recreated state differs: mode=%s trial=%d kind=%s applied=%d\n", ct.mode, ct.trial, ct.env.kind, len(ct.applied))
+	for t, bm := range beforeContent {
+		for k, v := range bm {
+			if env.content[t][k] != v {
+				tw := &pb.Notification{}
+				proto.Unmarshal([]byte(env.content[t][k]), tw)
+				re := &pb.Notification{}
+				proto.Unmarshal([]byte(v), re)
+				fmt.Fprintf(f, "  %s/%v real=%s twin=%s\n", t, model.Unkey(k), truncate(ptext(re), 300), truncate(ptext(tw), 300))
+			}
+		}
+		for k := range env.content[t] {
+			if _, ok := bm[k]; !ok {
+				fmt.Fprintf(f, "  %s/%v only in twin\n", t, model.Unkey(k))
+			}
+		}
+	}
 }
 
 // stateBuilder re-creates a cache state for the isolation of a crash.
@@ -579,9 +801,9 @@ func (ct *cacheTrial) message(n *pb.Notification, wire []byte) string {
 	if len(ct.hist) > 12 {
 		ct.hist = ct.hist[len(ct.hist)-12:]
 	}
-	before := e.snap
+	before, beforeContent := e.snap, e.content
 	var err error
-	ct.applied = append(ct.applied, appliedOp{n: proto.Clone(n).(*pb.Notification)})
+	ct.applied = append(ct.applied, appliedOp{n: proto.Clone(n).(*pb.Notification), clock: atomic.LoadInt64(&vclock)})
 	pi := guard(func() { err = e.c.GnmiUpdate(n) })
 	ct.r.Eval(1)
 	ct.judged++
@@ -609,7 +831,7 @@ func (ct *cacheTrial) message(n *pb.Notification, wire []byte) string {
 		return "panic"
 	}
 	if err != nil {
-		if sig, what := checkRejected(ct.r, n, err, before, e.snap); sig != "" {
+		if sig, what := checkRejected(ct.r, n, err, before, e.snap, e.leaves, ct.verdictsByReplay(n, beforeContent, func() map[string]map[string]string { return e.content })); sig != "" {
 			ct.r.Violation(ct.mode, ct.trial, sig, what+"; message: "+truncate(text, 400),
 				map[string]interface{}{"entry_point": "cache-ingest", "state": e.kind, "message": text, "error": err.Error(), "history": ct.hist})
 		}
@@ -628,7 +850,7 @@ func (ct *cacheTrial) maintain(op string) {
 		ct.hist = ct.hist[len(ct.hist)-12:]
 	}
 	confused := ct.confused()
-	ct.applied = append(ct.applied, appliedOp{op: op})
+	ct.applied = append(ct.applied, appliedOp{op: op, clock: atomic.LoadInt64(&vclock)})
 	pi := runMaintenance(e, op)
 	ct.r.Eval(1)
 	ct.r.Count("cache_maintenance_"+strings.SplitN(op, ":", 2)[0], 1)
@@ -681,6 +903,7 @@ func (ct *cacheTrial) finish() {
 		ct.maintain(op)
 	}
 	ct.env.close()
+	ct.dropTwin()
 	if ct.judged > 0 {
 		ct.r.Distinct(vlib.Hash(append([]interface{}{ct.mode, ct.env.kind}, ct.hash...)...))
 	}
